@@ -107,8 +107,11 @@ Definition arith (op : aop) (a b : dval) : outcome :=
            if is_num a && is_num b then
              match to_float a, to_float b with Some f, Some g => fop op f g | _, _ => OUnmodelled end
            else match op, a, b with
-                | Mul, DStr s, DInt n => OVal (DStr (repeat_list (Z.to_nat n) s))
-                | Mul, DList l, DInt n => OVal (DList (repeat_list (Z.to_nat n) l))
+                (* repetition: beyond the host's index range the language's error; a count the model cannot afford is not modelled *)
+                | Mul, DStr s, DInt n => if 9223372036854775807 <? n then OErr else if 100000 <? n then OUnmodelled
+                                         else OVal (DStr (repeat_list (Z.to_nat n) s))
+                | Mul, DList l, DInt n => if 9223372036854775807 <? n then OErr else if 100000 <? n then OUnmodelled
+                                          else OVal (DList (repeat_list (Z.to_nat n) l))
                 | Add, DList la, DList lb => OVal (DList (la ++ lb))
                 | Add, DList la, (DSet _ | DMap _) => OUnmodelled
                 | Add, DList la, _ => OVal (DList (la ++ [b]))
